@@ -55,10 +55,21 @@ Definition accept (s : unit) (o : op) (r : obs) : unit + N :=
   let '(p, ms, _, f) := o in
   match accept_obs p (mk_maps ms) f r with inl _ => inl tt | inr c => inr c end.
 
-Definition mkobs (fault : bool) (v len : N) (d : list (N * N)) : obs :=
-  {| o_fault := fault; o_verdict := v; o_len := len; o_diff := d |}.
+(* constructors used by the case files (applications of typed functions elaborate much faster than
+   tuple / long list notations).  The changed bytes come as runs: (start, consecutive new bytes). *)
+Definition rn (start : N) (bs : list N) : N * list N := (start, bs).
+Fixpoint run_pairs (i : N) (bs : list N) : list (N * N) :=
+  match bs with [] => [] | b :: tl => (i, b) :: run_pairs (i + 1) tl end.
+Definition expand (rs : list (N * list N)) : list (N * N) := flat_map (fun r => run_pairs (fst r) (snd r)) rs.
+Definition mkobs (fault : bool) (v len : N) (rs : list (N * list N)) : obs :=
+  {| o_fault := fault; o_verdict := v; o_len := len; o_diff := expand rs |}.
+Definition kv (k v : list N) : list N * list N := (k, v).
+Definition me (id : N) (l : list (list N * list N)) : mapent := (id, l).
 
 Definition case : Type := op * obs.
+(* the frame is the first L bytes of a base frame shared by the cases of one group *)
+Definition mkcase (p : N) (ms : list mapent) (now L maxlen : N) (base : list N) (o : obs) : case :=
+  ((p, ms, (now, L, maxlen), firstn (N.to_nat L) base), o).
 Definition mk (c : case) : unit * unit * list (op * obs) := (tt, tt, [c]).
 Definition run_cases (cs : list case) : list (list N) :=
   check_all step accept obs_eqb 1%N (map mk cs).
